@@ -93,6 +93,9 @@ def asBench (j : Json) : P Bench := do
 def asRoot (j : Json) : P RootNode := do
   pure ⟨← getStr j "tag", ← asBench (← field j "bench"), ← getList asKV j "attrs", ← getList asTrajNode j "trajs"⟩
 
+def asDoc (j : Json) : P RootDoc := do
+  pure ⟨← getStr j "tag", ← getStr j "bid", ← getList asKV j "attrs", ← getList asTrajNode j "trajs"⟩
+
 def strJ (s : String) : Json := Json.str s
 def arrJ {α} (f : α → Json) (l : List α) : Json := Json.arr (l.map f).toArray
 def kvJ (p : String × String) : Json := Json.arr #[strJ p.1, strJ p.2]
@@ -159,8 +162,35 @@ def handle (op : String) (a : Json) : P Json := do
     let auto ← getOpt asStr a "auto"
     pure <| resJ rootJ (encodeSol codec auto s)
   | "decode" =>
+    -- string level: the benchmark id is parsed from the attribute text by C13's model (ISO-3166 table from the harness)
+    let d ← asDoc (← field a "tree")
+    let cs ← getList asStr a "countries"
+    pure <| resJ solJ (decodeDoc codec (cs.map String.toList) d)
+  | "decode_tokens" =>
     let r ← asRoot (← field a "tree")
     pure <| resJ solJ (decodeSol codec r)
+  | "set_trajectory" =>
+    -- PlanningProblemSolution(id, model, vtype, cost, decoy) then `.trajectory = Trajectory(init, states)`
+    let ppId ← getInt a "id"
+    let m ← asVModel (← field a "model")
+    let vt ← asVType (← field a "vtype")
+    let cf ← asCost (← field a "cost")
+    let decoy ← asTraj (← field a "decoy")
+    let init ← getInt a "init"
+    let states ← getList asState a "states"
+    let r : Res PPS := (mkTraj init states).bind fun tr => (mkPPS ppId m vt cf decoy).bind fun p => setTrajectory p tr
+    pure <| resJ (fun p => strJ p.ttype.name) r
+  | "py_texts" =>
+    -- the grammar assumptions of C14_sol_valid_xsd / C14_sol_roundtrip_py on the texts Python wrote
+    let nums ← getList asStr a "nums"
+    let dates ← getList asStr a "dates"
+    let times ← getList asStr a "times"
+    pure <| Json.mkObj [
+      ("nums", arrJ (fun t => Json.bool (pyNumL t.toList && Lex.xsd.float t)) nums),
+      ("dates", arrJ (fun t => Json.bool (pyDateL t.toList && Lex.xsd.dateTime t)) dates),
+      ("times", arrJ (fun t => Json.bool (match t.toInt? with
+          | some i => t == Int.repr i && (Lex.xsd.int t == decide (-2147483648 ≤ i ∧ i ≤ 2147483647))
+          | none => false)) times)]
   | "roundtrip" =>
     let s ← asSolution (← field a "sol")
     let auto ← getOpt asStr a "auto"
